@@ -3,7 +3,9 @@ import ParanoidModel.Driver.RsaChecks
 import ParanoidModel.Driver.Ecdsa
 import ParanoidModel.Driver.ClosedForm
 import ParanoidModel.Driver.Rng
+import ParanoidModel.Driver.RngTotal
 import ParanoidModel.Driver.BM
+import ParanoidModel.Driver.BMWrapper
 import ParanoidModel.Driver.BitSeq
 import ParanoidModel.Driver.Bookkeeping
 import ParanoidModel.Driver.Suite
@@ -20,7 +22,7 @@ import ParanoidModel.Driver.EcAll
 open Paranoid.Driver
 
 /-- all dispatchers, tried in order. -/
-def dispatchers : List Dispatcher := [basicOps, nt19Ops, ntheoryOps, factoringOps, rsaCheckOps, ecdsaOps, closedFormOps, rngOps, bmOps, bitseqOps, bookkeepingOps, suiteOps, ecOps, latticeOps, linalgOps, hnpOps, bsgsOps, ecdsaCheckOps, nistOps, rsaAllOps, ecAllOps]
+def dispatchers : List Dispatcher := [basicOps, nt19Ops, ntheoryOps, factoringOps, rsaCheckOps, ecdsaOps, closedFormOps, rngOps, rngTotalOps, bmOps, bmWrapperOps, bitseqOps, bookkeepingOps, suiteOps, ecOps, latticeOps, linalgOps, hnpOps, bsgsOps, ecdsaCheckOps, nistOps, rsaAllOps, ecAllOps]
 
 def respond (regs : List (String × String)) (line : String) : String :=
   let toks := ((line.trimAscii.toString.splitOn " ").filter (· ≠ "")).map fun t =>
